@@ -66,7 +66,7 @@ var extraTypes = []string{
 	"*@{net/http}.Request", "@{net/http}.ResponseWriter", "@{net/http}.Handler", "@{context}.Context", "[]@{context}.Context", "@{time}.Time", "@{~/dep/time}.T",
 	"@{~/x/sync}.T", "*@{sync}.Mutex", "@{~/names/s}.T", "@{~/names/err}.T", "@{~/names/mock}.T", "@{~/names/n}.T",
 	"String", "Int", "[]String", "Error", "*Error", "Append", "[]Append",
-	"@{~/b/foo}.G[@{~/b/foo}.G[Loc]]", "Box[Box[Loc]]", "map[string]@{~/b/foo}.G[[]Loc]",
+	"@{~/b/foo}.G[@{~/b/foo}.G[Loc]]", "Box[Box[Loc]]", "map[@{~/b/foo}.T]@{~/b/foo}.G[*@{~/a/foo}.T]", "@{~/b/foo}.G[map[@{~/b/foo}.T][]@{~/a/foo}.T]", "map[string]@{~/b/foo}.G[[]Loc]",
 }
 
 // typeAlphabet returns T_1 (depth ≤ 1) or T_2 (depth ≤ 2 over a reduced atom set).
@@ -266,6 +266,23 @@ func scopeName2(part string) []*SrcPkg {
 			p.add(IfaceCase{Name: fmt.Sprintf("N%d", k), Tags: []string{"pat:4", "ty4:" + x}, Scope: scope}, decl)
 			k++
 		}
+	}
+	// many variables in one method scope: a parameter named like a package that only the
+	// 10th+ variable mentions
+	for _, nm := range []string{"foo", "sync", "s"} {
+		ty := map[string]string{"foo": "@{~/a/foo}.T", "sync": "@{~/x/sync}.T", "s": "@{~/names/s}.T"}[nm]
+		decl := fmt.Sprintf("type N%d interface{ M(%s string, p2, p3, p4, p5, p6, p7, p8, p9 int, late *%s) (r1, r2 int, err error) }", k, nm, ty)
+		p.add(IfaceCase{Name: fmt.Sprintf("N%d", k), Tags: []string{"pat:wide", nameTag(nm)}, Scope: scope}, decl)
+		k++
+		decl = fmt.Sprintf("type N%d interface{ M(a1, a2, a3, a4, a5, a6, a7 int, %s string, a9, a10 int) (r1 %s, err error) }", k, nm, ty)
+		p.add(IfaceCase{Name: fmt.Sprintf("N%d", k), Tags: []string{"pat:wide-result", nameTag(nm)}, Scope: scope}, decl)
+		k++
+	}
+	// unnamed parameters whose type is an unexported alias of the mocked package (in place only)
+	for _, d := range []string{"M(handler)", "M(*handler, handler)", "M(locAlias, *locAlias) locAlias", "M(x int, _ handler) (handler, error)"} {
+		decl := fmt.Sprintf("type N%d interface{ %s }", k, d)
+		p.add(IfaceCase{Name: fmt.Sprintf("N%d", k), Tags: []string{"pat:alias-typed"}, Scope: scope, InPlaceOnly: true}, decl)
+		k++
 	}
 	small := []string{"", "_", "s", "s1", "s2", "sMoqParam"}
 	for _, n1 := range small {
@@ -554,6 +571,8 @@ func scopeEmbed() []*SrcPkg {
 		"type Em24 interface{ @{net/http}.Handler }",
 		"type Em25 interface{ @{net/http}.RoundTripper; @{net/http}.Handler }",
 		"type Em26 interface{ A(); a2(); B() }",
+		"type Em27 interface{ @{~/q/tri}.Tri }",
+		"type Em28 interface{ @{~/q/tri}.Tri; Other(x @{~/e/foo}.T) }",
 	}
 	for i, d := range decls {
 		name := fmt.Sprintf("Em%d", i)
@@ -631,10 +650,11 @@ func scopeListPkg() *SrcPkg {
 	sp.Files = []SrcFile{
 		{Name: "a.go", Decls: "type LA interface{ M(afoo int, x @{~/a/foo}.T) }\n\ntype LD interface{ D(@{~/a/foo}.T) @{~/a/foo}.T }\n"},
 		{Name: "b.go", Decls: "type LB interface{ N(y @{~/b/foo}.T) }\n"},
-		{Name: "k.go", Decls: "type LK[K @{~/a/foo}.Ord] interface{ Key(k K) K }\n\ntype LM[K @{~/a/foo}.I] interface{ Use(k K) }\n"},
+		{Name: "k.go", Decls: "type LK[K @{~/a/foo}.Ord] interface{ Key(k K) K }\n\ntype LM[K @{~/a/foo}.I] interface{ Use(k K) }\n\ntype LV interface{ V(n int, xs ...@{~/a/foo}.T) []@{~/a/foo}.T }\n"},
+		{Name: "r.go", Decls: "type RA interface{ ResetGetCalls(); Get2() }\n\ntype RB interface{ Get() int }\n"},
 		{Name: "c.go", Decls: "type LC interface{ P(s string, t @{time}.Time) error }\n\ntype LE[T any] interface{ Q(T) (T, error) }\n\ntype LF interface{ R(Loc) }\n\ntype LZ interface{}\n\ntype LG = interface{ Do(int) }\n\ntype LH = interface{ Do(s string) error }\n"},
 	}
-	for _, n := range []string{"LA", "LB", "LC", "LD", "LE", "LF", "LG", "LH", "LZ", "LK", "LM"} {
+	for _, n := range []string{"LA", "LB", "LC", "LD", "LE", "LF", "LG", "LH", "LZ", "LK", "LM", "LV", "RA", "RB"} {
 		sp.Ifaces = append(sp.Ifaces, IfaceCase{Name: n, Scope: "S-list"})
 	}
 	return sp
@@ -679,6 +699,7 @@ func scopeListArgs() [][]string {
 	// a generic interface whose constraint is a method interface of a package that is re-aliased
 	// by a later argument (and the other order)
 	out = append(out, []string{"LM"}, []string{"LM", "LB"}, []string{"LB", "LM"}, []string{"LM", "LC", "LB"}, []string{"LK", "LM", "LB"})
+	out = append(out, []string{"LV"}, []string{"LV", "LB"}, []string{"LB", "LV"}, []string{"LV", "LC", "LB"}, []string{"RA"}, []string{"RB"}, []string{"RA", "RB"}, []string{"RB", "RA"})
 	// duplicates of the same interface under two mock names
 	out = append(out, []string{"LA", "LA:Second"}, []string{"LF:One", "LF:Two", "LB"})
 	// interfaces declared as aliases of interface literals whose methods share a name
@@ -693,4 +714,34 @@ func sortedKeys(m map[string]bool) []string {
 	}
 	sort.Strings(ks)
 	return ks
+}
+
+// scopeMirror: source files whose aliases mirror the names moq itself would generate for
+// the *other* same-named packages, at each level of the alias generator; the second file
+// re-uses one of these aliases for yet another package.
+func scopeMirror() ([]*SrcPkg, []*Case) {
+	var pkgs []*SrcPkg
+	var cases []*Case
+	levels := [][2]string{{"bfoo", "afoo"}, {"mbfoo", "mafoo"}, {"examplecommbfoo", "examplecommafoo"}}
+	for i, lv := range levels {
+		sp := &SrcPkg{Dir: fmt.Sprintf("s/mirror_%d", i), Name: "src"}
+		sp.Files = []SrcFile{
+			{Name: "f1.go", Aliases: map[string]string{"~/a/foo": lv[0], "~/b/foo": lv[1], "~/d/bar": "bfoo2"},
+				Decls: "type MI interface{ M(x @{~/a/foo}.T, y @{~/b/foo}.T, w @{~/d/bar}.T) }\n"},
+			{Name: "f2.go", Aliases: map[string]string{"~/e/foo": lv[1]}, Decls: "type MJ interface{ N(z @{~/e/foo}.T) }\n"},
+		}
+		if i > 0 {
+			sp.Files[0].Aliases["~/d/bar"] = "bfoo"
+		}
+		for _, n := range []string{"MI", "MJ"} {
+			sp.Ifaces = append(sp.Ifaces, IfaceCase{Name: n, Scope: "S-mirror", Tags: []string{"mirror:" + lv[0]}})
+		}
+		pkgs = append(pkgs, sp)
+		for _, l := range [][]string{{"MI", "MJ"}, {"MJ", "MI"}, {"MI"}, {"MJ"}} {
+			for _, c := range []Cfg{{}, {Pkg: 2, Stub: true}} {
+				cases = append(cases, &Case{Dir: sp.Dir, Ifaces: l, Cfg: c, Scope: "S-mirror"})
+			}
+		}
+	}
+	return pkgs, cases
 }
